@@ -119,6 +119,7 @@ var checks = map[string][]HarnessSpec{
 	"C17": {
 		{Name: "verifC17Dial", Pkg: ".", Labels: []string{"dialed", "connected", "failed"}},
 		{Name: "verifC17ResolverPath", Pkg: ".", Labels: []string{"resolver-path"}},
+		{Name: "verifC17AddressForms", Pkg: ".", Labels: []string{"address-forms"}},
 	},
 	"C18": {
 		{Name: "verifC18Dial", Pkg: ".", Labels: []string{"returned", "connected", "all-failed", "quiesced"}},
